@@ -145,7 +145,14 @@ class HistoryGen:
         r = rng.random()
         keys = list(m.d.keys())
         op = None
-        if r < 0.30:
+        if rng.random() < 0.04:
+            # a key that is almost, but not, one of the keywords the loaders look for -- set, then moved to the front
+            k = rng.choice(V.NEAR_MISS_KEYS)
+            first = ["set", k, self.value(k)]
+            apply_model(self.m, first, self.pool, self.kind)
+            self.ops.append(first)
+            op = ["move", k, False] if rng.random() < 0.7 else ["str"]
+        elif r < 0.30:
             k = rng.choice(keys) if keys and rng.random() < 0.3 else self.key()
             op = ["set", k, self.value(k)]
         elif r < 0.36 and keys:
